@@ -142,6 +142,10 @@ pub fn collect_sources<FS: FileSystem>(
     let mut files = VecDeque::new();
     files.push_back(root_file);
     while let Some(file_id) = files.pop_front() {
+        // a file can be reached along several include paths, or include itself
+        if file_set.contains(&file_id) {
+            continue;
+        }
         let parse = db.parse(file_id);
 
         let file_path = fs.path_for_file(&file_id);
